@@ -11,21 +11,22 @@ import (
 // Mapper.Read / Mapper.Write and the per-cycle calls that touch the bus state.
 //
 // ops:  reset <type2> <romsize2> <ramsize2> <lcd 0|1>   image of 0x4000*(2<<romsize) bytes, byte o of page b =
-//                                                       cartSig(b,o), header 0147/0148/0149 = type/romsize/ramsize;
-//                                                       lcd 0 = Mapper.Write(FF40, 00) right after construction
-//                                                       -> ok | fail
-//       w <addr4> <val2>     Mapper.Write                                      -> ok | crash
-//       r <addr4>            Mapper.Read                                       -> <val2> | crash
-//       snap                 checksums (FNV-1a/32 over the values read, a panicking read counts as 0x100) of
-//                            Mapper.Read over 8000-9FFF, C000-FDFF, FE00-FEFF, then FF00-FF0F and FF40-FF4B as hex,
-//                            FF4C-FF7F, FF80-FFFF ; internal: 0000-7FFF sampled, A000-BFFF sampled, OAM engine flags.
-//                            FF10-FF3F is never read (APU: C18's own check).
-//       ls <addr4>           light snapshot around <addr>: FF00-FF0F, FF40-FF4B, addr-1, addr, addr+1, addr^2000,
-//                            and 12 addresses derived from addr (one checksum; cartridge addresses in a second,
-//                            internal checksum; APU addresses skipped)
-//       tm | tp | tt         mapper.EndMachineCycle | ppu.EndMachineCycle | timer.EndMachineCycle (+RequestTimer)
-//       btn <b> <0|1>        controller.ButtonAction
-//       cor | trg <addr4>    oam.Corrupt() | oam.TriggerWriteCorruption (what the CPU calls; LCD-on runs)
+//
+//	                                                cartSig(b,o), header 0147/0148/0149 = type/romsize/ramsize;
+//	                                                lcd 0 = Mapper.Write(FF40, 00) right after construction
+//	                                                -> ok | fail
+//	w <addr4> <val2>     Mapper.Write                                      -> ok | crash
+//	r <addr4>            Mapper.Read                                       -> <val2> | crash
+//	snap                 checksums (FNV-1a/32 over the values read, a panicking read counts as 0x100) of
+//	                     Mapper.Read over 8000-9FFF, C000-FDFF, FE00-FEFF, then FF00-FF0F and FF40-FF4B as hex,
+//	                     FF4C-FF7F, FF80-FFFF ; internal: 0000-7FFF sampled, A000-BFFF sampled, OAM engine flags.
+//	                     FF10-FF3F is never read (APU: C18's own check).
+//	ls <addr4>           light snapshot around <addr>: FF00-FF0F, FF40-FF4B, addr-1, addr, addr+1, addr^2000,
+//	                     and 12 addresses derived from addr (one checksum; cartridge addresses in a second,
+//	                     internal checksum; APU addresses skipped)
+//	tm | tp | tt         mapper.EndMachineCycle | ppu.EndMachineCycle | timer.EndMachineCycle (+RequestTimer)
+//	btn <b> <0|1>        controller.ButtonAction
+//	cor | trg <addr4>    oam.Corrupt() | oam.TriggerWriteCorruption (what the CPU calls; LCD-on runs)
 //
 // Output = <part the C06/C07 theorems determine> ; <internal>.  With the LCD ON (FF40 bit 7 as read back), for
 // cartridge addresses, FF10-FF3F and the tick operations everything is printed in the internal part
